@@ -46,11 +46,12 @@ LOG_TYPES = [0, 1, 2, 0x10, 0x11]
 
 # ----------------------------------------------------------------------------- trace identifiers (firehose)
 
-NS_ACTIVITY, NS_TRACE, NS_LOG, NS_METADATA, NS_SIGNPOST, NS_LOSS = 2, 3, 4, 5, 6, 7
-NS_NAMES = {2: 'activity', 3: 'trace', 4: 'log', 5: 'metadata', 6: 'signpost', 7: 'loss'}
+NS_UNKNOWN, NS_ACTIVITY, NS_TRACE, NS_LOG, NS_METADATA, NS_SIGNPOST, NS_LOSS = 0, 2, 3, 4, 5, 6, 7
+NS_NAMES = {0: 'unknown', 2: 'activity', 3: 'trace', 4: 'log', 5: 'metadata', 6: 'signpost', 7: 'loss'}
 NS_TYPES = {
     NS_ACTIVITY: [1, 2, 3], NS_TRACE: [0, 1, 2, 0x10, 0x11], NS_LOG: [0, 1, 2, 0x10, 0x11],
     NS_METADATA: [1, 2, 3, 4], NS_SIGNPOST: [s | i for s in (0x40, 0x80, 0xc0) for i in (0, 1, 2)], NS_LOSS: [0],
+    NS_UNKNOWN: [0],        # the all-zero identifier (a record that carries the key with nothing in it)
 }
 SIGNPOST_FLAG_BITS = [1, 2, 4, 8, 0x10, 0x80]
 PC_STYLE_NAMES = ['none', 'main_exe', 'shared_cache', 'main_plugin', 'absolute', 'uuid_relative', 'large_shared_cache', '_unused7']
@@ -165,15 +166,16 @@ def segment(nstr):
         'rs': sidx, 't': st.lists(sidx, max_size=3), 'tn': sidx, 'ty': sidx})
     a_cat = st.sampled_from([0, 1, 2, 3])
     a = a_cat.flatmap(lambda c: st.fixed_dictionaries({'c': st.just(c)}, optional={
-        'a': st.sampled_from([0, 1, 2, 3]), 'p': st.integers(0, 3), 'sc': st.integers(0, 5), 'st': st.integers(0, 9),
-        'or': (sidx if c == 2 else st.one_of(u, st.binary(max_size=8), st.integers(0, 8), st.integers(100, 150)))}))
+        'a': st.sampled_from([0, 1, 2, 3, 3, 3]), 'p': st.integers(0, 3), 'sc': st.integers(0, 5), 'st': st.integers(0, 9),
+        # a scalar's value may happen to equal an id of the string index (ids are positions, or 100 + 7 * position): it stays a number
+        'or': (sidx if c == 2 else st.one_of(u, st.binary(max_size=8), st.integers(0, 8), st.integers(100, 150), sidx, sidx.map(lambda i: 100 + 7 * i)))}))
     return st.fixed_dictionaries({}, optional={'lp': sidx, 'p': p, 'a': a})
 
 
 def decomposed(nstr):
     return st.one_of(
         st.fixed_dictionaries({'pc': st.just(0), 's': st.integers(0, 3)}),
-        st.lists(segment(nstr), min_size=0, max_size=4).flatmap(lambda segs: st.fixed_dictionaries({
+        st.one_of(st.lists(segment(nstr), min_size=0, max_size=4), st.lists(segment(nstr), min_size=2, max_size=4)).flatmap(lambda segs: st.fixed_dictionaries({
             'pc': st.integers(1, 5), 's': st.integers(0, 3), 'seg': st.just(segs)})),
     )
 
@@ -181,7 +183,7 @@ def decomposed(nstr):
 def raw_value_strategies(nstr):
     sidx = st.integers(0, nstr - 1)
     return {
-        'ti': st.tuples(identifier_tuple(), S.u32), 'pip': sidx, 'p': sidx, 'sip': sidx, 'send': sidx, 'sio': u,
+        'ti': st.one_of(st.tuples(identifier_tuple(), S.u32), st.tuples(identifier_tuple(), S.u32), st.just(((0, 0, 0, 0, 0, 0, 0), 0))), 'pip': sidx, 'p': sidx, 'sip': sidx, 'send': sidx, 'sio': u,
         'siu': uuid16, 'lt': st.sampled_from(LOG_TYPES), 'ttl': st.integers(0, 255), 'pid': S.u32, 'aid': u,
         'paid': u, 'tai': u, 'sub': sidx, 'cat': sidx, 'f': sidx, 'cai': u, 'cpui': u, 'si': u, 'sn': sidx,
         'st': st.integers(0, 2), 'ss': st.integers(0, 3), 'lsmct': u, 'lemct': u, 'lsud': date, 'leud': date,
@@ -215,9 +217,17 @@ def raw_record(table, keyset=None, tids=None):
     n = len(table)
     opt = raw_value_strategies(n)
     man = mandatory_strategies(n, tids)
+    def share(rec):
+        # a record whose zones are all the same zone may hold ONE zone object referenced three times (this is what reading
+        # a binary plist gives): the values are what counts, not whether the dicts are distinct objects
+        if rec['utz']['mw'] % 3 == 0:
+            for k in ('lsutz', 'leutz'):
+                if k in rec:
+                    rec[k] = rec['utz']
+        return rec
     if keyset is None:
-        return st.fixed_dictionaries(man, optional=opt)
-    return st.fixed_dictionaries({**man, **{k: opt[k] for k in keyset}})
+        return st.fixed_dictionaries(man, optional=opt).map(share)
+    return st.fixed_dictionaries({**man, **{k: opt[k] for k in keyset}}).map(share)
 
 
 def realize(rec, table):
